@@ -446,12 +446,18 @@ def verdict_probe_ground(desc):
 @st.composite
 def machine_cfg(draw):
     ndict = draw(st.sampled_from([1, 2, 2]))
+    # in a third of the machines every dictionary is a symmetric ground-effect surface (same surface name, different sizes)
+    all_ground = draw(st.sampled_from([False, False, True]))
     dicts = []
     for _ in range(ndict):
         md = draw(mesh_desc(max_ny=7))
         md["num_y"] = max(md["num_y"], 5)
+        if all_ground:
+            md["symmetry"] = True
         dicts.append(dict(mesh=md, model=draw(st.sampled_from(["tube", "wingbox"])), viscous=draw(st.booleans()),
-                          weight_relief=draw(st.booleans())))
+                          weight_relief=draw(st.booleans()),
+                          # ground effect keeps per-surface constant data in the components: a class of its own for cross-talk
+                          ground=(True if all_ground else draw(st.booleans())) if md["symmetry"] else False))
     nprob = draw(st.sampled_from([2, 2, 3]))
     probs = []
     for k in range(nprob):
@@ -466,6 +472,8 @@ def machine_cfg(draw):
     for pr in probs:
         if pr["kind"] == "aerostruct":
             dicts[pr["dict"]]["mesh"]["wing_type"] = "rect"  # see template(): convergence of the coupled CRM template
+        if dicts[pr["dict"]].get("ground"):
+            pr["compressible"] = False  # ground effect + compressible cannot be set up (loud rejection)
     return dict(dicts=dicts, problems=probs)
 
 
@@ -496,7 +504,8 @@ class Machine:
         # the user's dictionaries: ONE structural surface dictionary per entry, shared by every problem that refers to it
         self.users = []
         for d in cfg["dicts"]:
-            t = dict(kind="aerostruct", mesh=d["mesh"], model=d["model"], viscous=d["viscous"], weight_relief=d["weight_relief"])
+            t = dict(kind="aerostruct", mesh=d["mesh"], model=d["model"], viscous=d["viscous"], weight_relief=d["weight_relief"],
+                     ground=bool(d.get("ground")))
             self.users.append(Script(t).surfaces)
         self.specs = cfg["problems"]
         self.hash0 = [mesh_hashes(u) for u in self.users]
@@ -519,6 +528,10 @@ class Machine:
         self.extra = []
         shared = len(set(sp["dict"] for sp in self.specs)) < n
         self.labels.append("shared_dicts" if shared else "separate_dicts")
+        if any(d.get("ground") for d in cfg["dicts"]):
+            self.labels.append("ground")
+        if len({(d["mesh"]["num_x"], d["mesh"]["num_y"]) for d in cfg["dicts"]}) > 1:
+            self.labels.append("different_mesh_sizes")
         for sp in self.specs:
             lab = "kind=" + sp["kind"]
             if lab not in self.labels:
@@ -666,5 +679,5 @@ SUBS = [
                                    viscous=st.booleans(), wave=st.sampled_from([False, False, True]))),
         verdict_valid_direct, quick=64, thorough=2000),
     Sub("probe_ground_compressible", ground_compressible_case(), verdict_probe_ground, quick=12, thorough=100, max_shards=2),
-    HistorySub("interleaving", machine_cfg(), RULES, make_machine, quick=48, thorough=800, steps=(10, 25), max_shards=8),
+    HistorySub("interleaving", machine_cfg(), RULES, make_machine, quick=96, thorough=1600, steps=(10, 25), max_shards=8),
 ]
